@@ -90,6 +90,10 @@ fn("mark", "function mark(v) return integer is begin if v < 10 then flag = true;
 # the same callee reached at several nesting levels
 fn("at", "function at(k, a) return integer is begin if k <= 0 then return fxi(a); end if; return at(k - 1, a); end;",
    {"at(0, 5)": "r=5\n", "at(3, 5)": "r=5\n", "at(3, 0)": "r=null\n", "at(40, 7)": "r=7\n", "fxi(9)": "r=9\n"})
+# the error a handler saw is not visible to later calls (also when the handler itself raised)
+fn("ferr", "function ferr(k) return string is begin if k == 1 then begin raise boom; exception when boom then raise again; end; end if; "
+           "if k == 2 then begin raise soft; exception when soft then zz = 1; end; end if; return \"<\" + str(error@1) + str(error@2) + \">\"; end;",
+   {"ferr(0)": "r=<>\n", "ferr(1)": "err=AGAIN\n", "ferr(2)": "r=<>\n"})
 fn("farg", "function farg(a, b) return integer is begin if isnull(c) then c = 0; end if; c = c + a * 10 + b; return c; end;", {})
 # farg reads c before assignment lexically -> must be rejected; handled separately
 
@@ -101,7 +105,7 @@ GROUPS = {
     "fx": ["fx"], "fs": ["fs"], "ft": ["ft"], "fxi": ["fxi"], "facc": ["facc"], "fl": ["fl"], "fact": ["fact"], "fib": ["fib"],
     "evod": ["ev", "od2"], "fm": ["fm"], "fms": ["fms"], "fmi": ["fmi"], "fhe": ["fhe"], "fue": ["fue"], "ffa": ["ffa"], "ffe": ["ffe"],
     "fle": ["fle"], "fwe": ["fwe"], "frn": ["frn"], "fo": ["fo0", "fo1", "fo2"], "fp": ["fp"], "fty": ["fty"], "fsafe": ["fsafe"], "fnr": ["fnr"],
-    "add": ["add"], "mark": ["mark"], "at": ["at"],
+    "add": ["add"], "mark": ["mark"], "at": ["at"], "ferr": ["ferr"],
 }
 
 
